@@ -254,7 +254,13 @@ func newNode(engine, scratch string) (*node, error) {
 		// the production wiring of --enable-storage-metrics: the wrapper shares the node's metrics client
 		kv = wrapStorage(kv, m)
 	}
-	b := backend.NewBackend(kv, backend.Config{Prefix: "/registry", Identity: "127.0.0.1:3379", EnableEtcdCompatibility: true}, m)
+	// a small --watch-cache-size: the event ring wraps after a few dozen writes instead of 200 000, so that
+	// watches from recent revisions read a full, wrapped ring at every cursor position
+	cache := 16
+	if engine == lib.EngWrapMem {
+		cache = 40
+	}
+	b := backend.NewBackend(kv, backend.Config{Prefix: "/registry", Identity: "127.0.0.1:3379", EnableEtcdCompatibility: true, WatchCacheSize: cache}, m)
 	le := leader.NewLeaderElection(b, m, func(context.Context) {}, func() {})
 	peers := service.NewPeerService(le, m, b, service.Config{})
 	n := &node{b: b, peers: peers}
@@ -349,7 +355,13 @@ func genNum(r *lib.Rand) int64 {
 }
 
 func genRevI(r *lib.Rand, cur uint64) int64 {
-	switch r.Intn(12) {
+	switch r.Intn(16) {
+	case 12, 13:
+		return int64(cur) - int64(r.Intn(16)) // inside the event ring
+	case 14:
+		return -int64(1 + r.Intn(3)) // range stream at an ancient revision
+	case 15:
+		return -(int64(cur) - int64(r.Intn(40)))
 	case 0, 1, 2, 3:
 		return genNum(r)
 	case 4:
@@ -743,6 +755,69 @@ func corpus(cur uint64) []genReq {
 	return out
 }
 
+// second part of the fixed corpus: requests that refer to the node's current revision, built one at a time.
+// By now the event ring (16 / 40 slots) has wrapped several times.
+func corpusDynamic() []func(cur uint64) genReq {
+	ctx := context.Background()
+	var out []func(cur uint64) genReq
+	brainWatchFrom := func(k []byte, back uint64, tag string) func(cur uint64) genReq {
+		return func(cur uint64) genReq {
+			rev := cur - back
+			return genReq{Kind: "corpus.brain.Watch.recent", Coq: lib.App("BWatch", lib.Bytes(k), lib.N(rev)),
+				JSON: js("api", "brain.Watch", "key", k, "revision", rev, "revisions_behind_current", back, "corpus", tag),
+				Run: func(n *node) bool {
+					c, cancel := context.WithCancel(ctx)
+					go func() { time.Sleep(15 * time.Millisecond); cancel() }()
+					err := n.bs.Watch(&proto.WatchRequest{Key: k, Revision: rev}, &brainWatchStream{fakeStream: fakeStream{c}})
+					time.Sleep(5 * time.Millisecond)
+					return err != nil
+				}}
+		}
+	}
+	etcdWatchFrom := func(k, end []byte, mkRev func(cur uint64) int64, kind, tag string) func(cur uint64) genReq {
+		return func(cur uint64) genReq {
+			rev := mkRev(cur)
+			return genReq{Kind: kind, Coq: lib.App("EWatch", lib.Bytes(k), lib.Z(rev)),
+				JSON: js("api", "etcd.Watch", "key", k, "range_end", end, "start_revision", rev, "current_revision", cur, "corpus", tag),
+				Run: func(n *node) bool {
+					c, cancel := context.WithCancel(ctx)
+					defer cancel()
+					ws := &etcdWatchStream{fakeStream: fakeStream{c}, in: make(chan *etcdserverpb.WatchRequest, 4)}
+					ws.in <- &etcdserverpb.WatchRequest{RequestUnion: &etcdserverpb.WatchRequest_CreateRequest{CreateRequest: &etcdserverpb.WatchCreateRequest{Key: k, RangeEnd: end, StartRevision: rev}}}
+					go func() { time.Sleep(25 * time.Millisecond); close(ws.in) }()
+					err := n.es.Watch(ws)
+					time.Sleep(10 * time.Millisecond) // the watch / range-stream goroutines end on their own
+					return err != nil
+				}}
+		}
+	}
+	// seed C20-6: watches that start at one of the newest cached revisions of a full, wrapped ring; consecutive
+	// requests see the ring's cursor at consecutive positions (each is followed by the probe's create)
+	for _, back := range []uint64{0, 1, 2, 3, 4, 5, 7, 9, 12, 15} {
+		back := back
+		out = append(out, brainWatchFrom([]byte("/registry/"), back, "seed C20-6"))
+		out = append(out, etcdWatchFrom([]byte("/registry/"), nil, func(cur uint64) int64 { return int64(cur - back) }, "corpus.etcd.Watch.recent", "seed C20-6"))
+	}
+	// seed C20-5: a range stream (watch create with a negative start revision) at a revision below the compact
+	// revision: the scan fails and the stream must end with an error response, not with the process
+	out = append(out, func(cur uint64) genReq {
+		return genReq{Kind: "corpus.brain.Compact.current", Coq: lib.App("BCompact", lib.N(cur)), JSON: js("api", "brain.Compact", "revision", cur, "corpus", "seed C20-5"),
+			Run: func(n *node) bool {
+				_, err := n.bs.Compact(ctx, &proto.CompactRequest{Revision: cur})
+				return err != nil
+			}}
+	})
+	for _, mk := range []func(cur uint64) int64{
+		func(cur uint64) int64 { return -1 },
+		func(cur uint64) int64 { return -2 },
+		func(cur uint64) int64 { return -int64(cur - 30) },
+		func(cur uint64) int64 { return -int64(cur) },
+	} {
+		out = append(out, etcdWatchFrom([]byte("/registry/"), []byte("/registry0"), mk, "corpus.etcd.Watch.rangestream", "seed C20-5"))
+	}
+	return out
+}
+
 type logLine struct {
 	I        int                    `json:"i"`
 	Phase    string                 `json:"phase"` // start | done
@@ -904,6 +979,9 @@ func childReq(engine string, seed uint64, count int, logPath, scratch string) {
 	}
 	for _, g := range reqs {
 		runOne(g)
+	}
+	for _, mk := range corpusDynamic() {
+		runOne(mk(n.b.GetCurrentRevision()))
 	}
 	for i < count {
 		runOne(genRequest(r, n.b.GetCurrentRevision()))
@@ -1395,7 +1473,16 @@ func main() {
 				if timedOut {
 					oc = "OWedge"
 				}
-				d = logLine{Outcome: oc, Note: fmt.Sprintf("child ended: %v; stderr tail: %s", runErr, tail(stderr.String(), 1200))}
+				es := stderr.String()
+				hint := ""
+				if strings.Contains(fmt.Sprint(runErr), "exit status 255") {
+					hint = " (255 = klog.Fatal*: the node terminated itself)"
+				}
+				head := es
+				if len(head) > 700 {
+					head = head[:700] + " [...] " + tail(es, 700)
+				}
+				d = logLine{Outcome: oc, Note: fmt.Sprintf("child ended: %v%s; stderr: %s", runErr, hint, head)}
 			}
 			s.Req["engine"] = eng
 			s.Req["outcome"] = d.Outcome
